@@ -132,8 +132,16 @@ Fixpoint run_seq (ty : ttype) (fixed3 : bool) (budgets : list nat) (s : script) 
       end
   end.
 
+(* ------------------------------------------------------------------ Type 4 presence check
+   Type4Tag._is_present: self._dep.exchange(None) sends R(NAK) with ONE clf.exchange call, any
+   CommunicationError means "not present" (tt4.py: _is_present, IsoDepInitiator.exchange with command None).
+   No retry: the open finding of findings/C16.json. *)
+Definition t4_is_present (s : script) (pos : nat) : bool * nat :=
+  (match s pos with Answer _ => true | Fault _ _ => false end, 1%nat).
+
 (* ------------------------------------------------------------------ interface of the extracted runner *)
 Definition script_of (l : list attempt) : script := fun i => nth i l (Answer []).
 Definition run_transceive (ty : ttype) (fixed3 : bool) (retries : Z) (present : bool) (l : list attempt)
   : res (list Z) * nat :=
   transceive ty fixed3 retries present (script_of l) 0.
+Definition run_t4_is_present (l : list attempt) : bool * nat := t4_is_present (script_of l) 0.
